@@ -17,7 +17,7 @@ RULE = (
     "(library ==, geometry, bbox, length), transformed and untransformed. Non-trivial = the shape is rendered."
 )
 BUDGET = {"quick": 9000, "thorough": 400000}
-TIME_CAP = {"quick": 70, "thorough": 1500}
+TIME_CAP = {"quick": 240, "thorough": 1500}
 ANCHORS = ["Rect._validate_rect", "Rect.segments", "_RoundShape.segments", "SimpleLine.segments", "_Polyshape.segments", "_Polyshape._init_points",
            "Shape.d", "Shape.__eq__", "Path.__init__", "Rect.reify", "_RoundShape.reify", "SimpleLine.reify", "_Polyshape.reify"]
 REQUIRED_MONITORS = ["equivalent-path", "transformed-decomposition", "shape-eq-path", "path-from-d", "bbox-agreement", "length-agreement", "degenerate"]
